@@ -432,6 +432,7 @@ func (v *PacketDslVisitorImpl) VisitInerObjectField(ctx *gen.InerObjectFieldCont
 	name := decl.IDENTIFIER().GetText()
 	var subFields []*model.Field
 	subFieldNames := make(map[string]bool)
+	subDeclLine := make(map[string]int) // first line of each member's declaration, for diagnostics
 	// Iterate all sub-field definitions inside the nested object
 	for _, fctx := range decl.AllFieldDefinition() {
 		fld := v.VisitFieldDefinition(fctx)
@@ -439,6 +440,9 @@ func (v *PacketDslVisitorImpl) VisitInerObjectField(ctx *gen.InerObjectFieldCont
 			continue
 		}
 		f := fld.(*model.Field)
+		if _, seen := subDeclLine[f.Name]; !seen {
+			subDeclLine[f.Name] = fctx.GetStart().GetLine()
+		}
 		if subFieldNames[f.Name] {
 			v.BinModel.AddSyntaxError(&model.SyntaxError{
 				Line:            fctx.GetStart().GetLine(),
@@ -471,7 +475,7 @@ func (v *PacketDslVisitorImpl) VisitInerObjectField(ctx *gen.InerObjectFieldCont
 				subMatchFields[key.Name] = mf.MatchPairs
 			} else {
 				v.BinModel.AddSyntaxError(&model.SyntaxError{
-					Line:            ctx.GetStart().GetLine(),
+					Line:            subDeclLine[f.Name],
 					Column:          ctx.GetStart().GetTokenSource().GetCharPositionInLine(),
 					Msg:             "Unknown match key field " + mf.MatchKeyField.Name + " for match field " + f.Name + " in " + name,
 					OffendingSymbol: nil,
